@@ -133,9 +133,7 @@ theorem sameFn_row (f g : StateFn) (hf : clearAbove f.bounds cut = true) (hg : c
 theorem runFn_congr (f g : StateFn) (hf : clearAbove f.bounds cut = true) (hg : clearAbove g.bounds cut = true)
     (h : sameFn f g = true) (i : Inp) (s : PState) : runFn f i s = runFn g i s := by
   have hr := sameFn_row f g hf hg h i
-  have hp : f.pre.contains .deferClearIgnoreST = g.pre.contains .deferClearIgnoreST := by
-    simp only [sameFn, Bool.and_eq_true, beq_iff_eq] at h; exact h.2
-  simp only [runFn, hr, hp]
+  simp only [runFn, hr]
 
 /-- Tables with the same rows give the same `step`. -/
 theorem step_congr (T U : Table) (hT : boundsOk T = true) (hU : boundsOk U = true)
